@@ -8,6 +8,8 @@
  R3  no process-terminating call is reachable from the reader/writer entry points beyond the frozen list
  R5  every call-graph cycle on the reader/writer path is classified by what bounds its depth (frozen table with reasons);
      a cycle bounded only by the input is a finding, an unlisted recursive function is unclassified
+ R6  a pointer member that a freeing method leaves dangling (SingleLinkList::tail after Empty()) is dereferenced only under a
+     test of the member that method does reset
  R4  a node that a function has handed to a container (the callee stores the parameter; fixed point over the call graph) is
      not deleted by that function on any consistent path afterwards (path-sensitive over flag variables)
 """
@@ -32,7 +34,7 @@ EXPLANATION = (
     "a frozen list. (R4) for every `delete` of a local pointer in the runtime libraries: on no path that is consistent in "
     "its flag variables does the function first pass the pointer to a parameter that is stored (least fixed point of "
     "'assigned to a member/element/global or passed on to a stored parameter', virtual calls expanded) and then delete it "
-    "without taking it back or re-assigning it. (E2t) every strncpy into a fixed char array with a constant size is followed, on every path to the next use of the array, by a store of 0 at an index not above that size - or cannot need one (literal source shorter than the size; zero-initialised storage whose tail is never written; a constructor-established terminator beyond the size; identifier sources under the identifier-length assumption). (R5) every call-graph cycle reachable from the entry points (Tarjan over the resolved call graph with class-hierarchy expansion) consists of functions classified in tables/c05_recursion.json by what bounds the depth (schema structure, constant, dead branch, or only the input); input-bounded cycles and unlisted recursive functions fail. Not decided: heap lifetime beyond R4, integer overflow, the exact depth at which an input-bounded recursion exhausts the stack, time proportional to input, "
+    "without taking it back or re-assigning it. (E2t) every strncpy into a fixed char array with a constant size is followed, on every path to the next use of the array, by a store of 0 at an index not above that size - or cannot need one (literal source shorter than the size; zero-initialised storage whose tail is never written; a constructor-established terminator beyond the size; identifier sources under the identifier-length assumption). (R6) pointer members that a non-destructor method leaves untouched while it frees the objects reached through a sibling member of the same type (discovered: SingleLinkList::tail vs head in Empty()) are dereferenced only where the sibling is known to be non-NULL or after an assignment in the same function. (R5) every call-graph cycle reachable from the entry points (Tarjan over the resolved call graph with class-hierarchy expansion) consists of functions classified in tables/c05_recursion.json by what bounds the depth (schema structure, constant, dead branch, or only the input); input-bounded cycles and unlisted recursive functions fail. Not decided: heap lifetime beyond R4, integer overflow, the exact depth at which an input-bounded recursion exhausts the stack, time proportional to input, "
     "judy.c / sc_hash.cc internals (vendored containers with structural invariants).")
 
 ENTRIES = ["STEPfile::ReadExchangeFile", "STEPfile::AppendExchangeFile", "STEPfile::ReadWorkingFile",
@@ -165,6 +167,75 @@ def r4_handed_then_deleted(prog, res):
     res.floor("R4.handed_over_not_deleted", "delete sites whose pointer is also handed over in the same function", nf, 2)
 
 
+def r6_stale_member(prog, res):
+    """A method (not a destructor) that frees the objects reached through pointer member M1 and re-assigns M1, but leaves another
+    pointer member M2 of the same type untouched, leaves M2 dangling whenever M1 ends up NULL (SingleLinkList::Empty: nodes
+    freed, head = 0, tail still points at a freed node).  Every dereference of M2 must then stand under a test that M1 is not
+    NULL, or follow an assignment to M2 in the same function."""
+    from ir import walk as _walk, strip as _strip
+    from engines import known_facts
+
+    def core(n):
+        n = _strip(n)
+        while n is not None and n["k"] == "Cast" and n.get("ch"):
+            n = _strip(n["ch"][0])
+        return n
+    facts_ = {}
+    for f in prog.all_functions():
+        if f.component == "test" or "::" not in f.name:
+            continue
+        cls, meth = f.name.rsplit("::", 1)
+        if meth.startswith("~"):
+            continue
+        rec = prog.records.get(cls)
+        if not rec:
+            continue
+        dm = [core(x["ch"][0]) for x in f.walk() if x["k"] == "Delete" and x.get("ch")]
+        dm = [d for d in dm if d is not None and d["k"] == "Member" and (d.get("q") or "").startswith(cls + "::")]
+        assigned = {core(x["ch"][0]).get("q") for x in f.walk() if x["k"] == "Assign" and core(x["ch"][0]) is not None and core(x["ch"][0])["k"] == "Member"}
+        for d in dm:
+            if d["q"] not in assigned:
+                continue
+            for fld in rec["fields"]:
+                fty = rec["_types"][fld["t"]] if isinstance(fld.get("t"), int) else ""
+                q = "%s::%s" % (cls, fld["n"])
+                if q != d["q"] and fty == f.ty(d) and q not in assigned:
+                    facts_[q] = (d["q"], f.name, f.where())
+    res.info["r6_stale_member_facts"] = {k: "%s frees through %s and leaves it untouched (%s)" % (v[1], v[0], v[2]) for k, v in facts_.items()}
+    res.floor("R6.stale_member_guarded", "members left dangling by a freeing method", len(facts_), 1)
+    n = 0
+    counters = {}
+    for f in prog.all_functions():
+        if f.component == "test" or f.cfg is None:
+            continue
+        for x in f.walk():
+            if x["k"] != "Member" or not x.get("arrow") or not x.get("ch"):
+                continue
+            b = core(x["ch"][0])
+            if b is None or b["k"] != "Member" or b.get("q") not in facts_:
+                continue
+            m1, by, where = facts_[b["q"]]
+            n += 1
+            guarded = False
+            for cn, pol in known_facts(f, x):
+                c0 = core(cn)
+                if c0 is not None and c0["k"] == "Member" and c0.get("q") == m1 and pol:
+                    guarded = True
+                if c0 is not None and c0["k"] == "Binary" and c0.get("op") == "!=" and any(core(y) is not None and core(y).get("q") == m1 for y in c0["ch"]) and pol:
+                    guarded = True
+            if not guarded:
+                defs = [y for y in f.walk() if y["k"] == "Assign" and core(y["ch"][0]) is not None and core(y["ch"][0]).get("q") == b["q"]]
+                guarded = any(f.cfg.dominates(f.cfg.locate(y), f.cfg.locate(x)) and f.cfg.locate(y) != f.cfg.locate(x) for y in defs)
+            base = "R6|%s|%s|%s->" % (f.relfile(), f.name, b["q"].split("::")[-1])
+            k0 = counters.get(base, 0)
+            counters[base] = k0 + 1
+            res.add("R6.stale_member_guarded", base if k0 == 0 else "%s#%d" % (base, k0), f.where(x), guarded,
+                    "`%s` is dereferenced only where `%s` is known to be non-NULL (or after it was assigned here)" % (b["n"], m1.split("::")[-1]) if guarded else
+                    "`%s` is dereferenced without a test of `%s`: %s frees the nodes and resets only `%s`, so `%s` can point at freed memory"
+                    % (b["n"], m1.split("::")[-1], by, m1.split("::")[-1], b["n"]))
+    res.floor("R6.stale_member_guarded", "dereferences of such members", n, 1)
+
+
 def r5_recursion(prog, res, reachable):
     """Every call-graph cycle reachable from the entry points is classified by what bounds its depth (table
     tables/c05_recursion.json, one reason per function).  A cycle that contains a function of class `input` - only the file
@@ -257,5 +328,6 @@ def run(prog, res, tier):
     memsafe.run_terminators(prog, res, CFG, reachable)
     r4_handed_then_deleted(prog, res)
     r5_recursion(prog, res, reachable)
+    r6_stale_member(prog, res)
     nt = memsafe.run_strncpy_terminated(prog, res, CFG, reachable)
     res.floor("E2t.strncpy_terminated", "strncpy calls into fixed arrays with a constant size", nt, 1)
